@@ -322,7 +322,10 @@ def do_mop(env, st, i):
     else:
         api, fcode, union, ff, fkind = MOPS[name]
         passed = list(maps)
-        res, err = run_api(i, name, lambda: api(passed))
+        kw_out = {}
+        if st.get('dtype_out') and name == 'divide_intersection':
+            kw_out['dtype_out'] = DT[st['dtype_out']]
+        res, err = run_api(i, name, lambda: api(passed, **kw_out))
         if len(passed) != len(maps) or any(a is not b for a, b in zip(passed, maps)):
             return fail(i, '%s modified the list of maps passed by the caller' % name)
         filler = mop_filler(fkind, meta0)
@@ -336,8 +339,10 @@ def do_mop(env, st, i):
     nm = env.meta[out]
     m0 = maps[0]
     if name == 'divide_intersection':
-        want_dt = 'float64'
-        want_sent = frac(float(meta0.sent))       # the first map's sentinel expressed in float64
+        odt = DT[st['dtype_out']] if st.get('dtype_out') else np.float64
+        want_dt = np.dtype(odt).name
+        # the first map's sentinel expressed in the requested output type
+        want_sent = frac(odt(m0._sentinel)) if st.get('dtype_out') else frac(float(meta0.sent))
     else:
         want_dt = np.dtype(m0.dtype).name
         want_sent = meta0.sent
@@ -879,6 +884,41 @@ def do_vwrite(env, st, i):
                            impl='RAISED', model='ok'))
         return mm
     return [(mop, cmp)]
+
+
+@step('vrange')
+def do_vrange(env, st, i):
+    """a write through a fresh single-field view addressed by half-open pixel RANGES that contain at least one pixel
+    invalid in the parent: must be rejected, on either side of the size threshold, leaving the parent unchanged
+    (the checks that follow compare the whole parent with the model, which this step does not touch)"""
+    h = st['h']
+    m = env.maps[h]
+    rows = np.array([(int(a), int(b)) for a, b in st['ranges']], dtype=np.int64).reshape((-1, 2))
+    pix = hpg.pixel_ranges_to_pixels(rows)
+    if pix.size == 0 or bool(np.all(m.get_values_pix(pix, valid_mask=True))):
+        return []          # nothing invalid inside: not the case this step is about
+    f = st['field']
+    if bool(np.all(m[f].get_values_pix(pix, valid_mask=True))):
+        # every pixel of the range holds a value in this field although the parent is invalid there (a record
+        # written with the primary at the sentinel): the per-field validity of views, known finding F32
+        return []
+    ft = np.dtype(m.dtype[f])
+    value = ft.type(st['value'])
+    old_thr = hsm_mod.PIXEL_RANGE_THRESHOLD
+    if st.get('thr') is not None:
+        hsm_mod.PIXEL_RANGE_THRESHOLD = st['thr']
+    try:
+        v = m[f]
+        try:
+            v.update_values_pix(rows, value)
+            raised = False
+        except Exception:  # noqa
+            raised = True
+    finally:
+        hsm_mod.PIXEL_RANGE_THRESHOLD = old_thr
+    if not raised:
+        return fail(i, 'a write through a field view given as pixel ranges that contain invalid pixels was accepted')
+    return []
 
 
 # ---------------------------------------------------------------- wide-mask bits (C13)
